@@ -279,3 +279,10 @@ func VerifIsWriteError(err error) bool {
 	var we WriteError
 	return errors.As(err, &we)
 }
+
+// VerifDirty leaves the frame header in the state of one that has been used
+// before: a payload buffer holding payload and a length field of length.
+func (f *FrameHeader) VerifDirty(payload []byte, length int) {
+	f.payload = append(f.payload[:0], payload...)
+	f.length = length
+}
